@@ -44,3 +44,52 @@ pub fn root_fe_fuzz_f64(b: &[u8]) -> (f64, &[u8]) {
 pub fn root_fe_fuzz_f32(b: &[u8]) -> (f32, &[u8]) {
     fe_fuzz::parse_float::<f32>(b)
 }
+
+/// The whole public API of the fixed-capacity vector, so that every method has a monomorphic
+/// instance to analyse (C13) even when `parse_float` does not reach it.
+#[cfg(not(feature = "alloc"))]
+pub fn root_stackvec_api(v: &mut minimal_lexical::stackvec::StackVec, w: &minimal_lexical::stackvec::StackVec, s: &[u64], x: u64, n: usize) -> usize {
+    use minimal_lexical::stackvec::StackVec;
+    use core::ops::{Deref, DerefMut};
+    let mut acc = 0usize;
+    let mut fresh = StackVec::new();
+    acc += fresh.len() + fresh.capacity() + fresh.is_empty() as usize;
+    if let Some(t) = StackVec::try_from(s) {
+        acc += t.len();
+    }
+    acc += v.try_push(x).is_some() as usize;
+    acc += v.pop().is_some() as usize;
+    acc += v.try_extend(s).is_some() as usize;
+    acc += v.try_resize(n, x).is_some() as usize;
+    acc += v.hi64().0 as usize;
+    acc += StackVec::from_u64(x).len();
+    v.normalize();
+    acc += v.is_normalized() as usize;
+    acc += v.add_small(x).is_some() as usize;
+    acc += v.mul_small(x).is_some() as usize;
+    acc += (*v == *w) as usize;
+    acc += (core::cmp::PartialOrd::partial_cmp(&*v, w) == Some(core::cmp::Ordering::Less)) as usize;
+    acc += (core::cmp::Ord::cmp(&*v, w) == core::cmp::Ordering::Less) as usize;
+    acc += v.deref().len() + v.deref_mut().len();
+    *v *= s;
+    let c = w.clone();
+    acc + c.len()
+}
+
+/// big-integer operations not reached from `parse_float` (C12/C13 friends)
+#[cfg(not(feature = "alloc"))]
+pub fn root_bigint_api(v: &mut minimal_lexical::stackvec::StackVec, s: &[u64], x: u64, n: usize) -> usize {
+    use minimal_lexical::bigint;
+    let mut acc = 0usize;
+    acc += bigint::small_add(v, x).is_some() as usize;
+    acc += bigint::small_mul(v, x).is_some() as usize;
+    acc += bigint::large_add(v, s).is_some() as usize;
+    acc += bigint::large_mul(v, s).is_some() as usize;
+    acc += bigint::shl(v, n).is_some() as usize;
+    acc += bigint::pow(v, n as u32).is_some() as usize;
+    acc += bigint::bit_length(v) as usize;
+    acc += bigint::is_normalized(v) as usize;
+    acc += (bigint::compare(v, s) == core::cmp::Ordering::Less) as usize;
+    bigint::normalize(v);
+    acc
+}
